@@ -40,7 +40,7 @@ func Pow(b, k int) int {
 // Separators usable between tokens.
 var Seps = []string{" ", "\t", "\u00a0", "\n", "\r\n", "\u2028", "  ", "\u3000", "\ufeff", "\v", "\f", "\r", "\u2029", "\u0085", "\u1680", "\u2003", "\u202f", "\u205f"}
 var SpaceSeps = []string{" ", "\t", "\u00a0", "  ", "\u3000", "\ufeff", "\v", "\f", "\u1680", "\u2003", "\u202f", "\u205f"}
-var BreakSeps = []string{"\n", "\r\n", "\u2028", "\r", "\u2029", "\u0085", " \n ", "\n\n"}
+var BreakSeps = []string{"\n", "\r\n", "\u2028", "\r", "\u2029", "\u0085", " \n ", "\n\n", "\n\u00a0", "\r\n\ufeff", "\n\u3000\u3000", "\u2028\u2003", "\u00a0\n\u202f", "\n\t\u1680"}
 
 // Interesting code points for byte-level generators.
 var InterestingRunes = []rune{0x00A0, 0x0085, 0x1680, 0x180E, 0x2000, 0x2003, 0x200A, 0x200B, 0x200C, 0x200D, 0x2028, 0x2029, 0x202F, 0x205F, 0x3000, 0xFEFF,
